@@ -220,7 +220,9 @@ func runCheck(P *Prog, prop, tier string, seed int, writeBase bool, t0 time.Time
 		fmt.Println("ENGINE-ERROR: vacuity guard:", msg)
 		return 2
 	}
+	failFast = tier == "quick" && !writeBase && base != nil
 	vs := solveAll(jobs, timeout, 16)
+	failFast = false
 	// second chance for claimed obligations that came back undecided (a loaded machine must not cause an alarm):
 	// re-run them with a three times larger budget and little parallelism
 	if base != nil && !writeBase {
@@ -236,8 +238,9 @@ func runCheck(P *Prog, prop, tier string, seed int, writeBase bool, t0 time.Time
 				idx = append(idx, i)
 			}
 		}
-		if len(retry) > 0 && len(retry) <= 40 {
-			rs := solveAll(retry, timeout*3, 4)
+		// (more than a dozen undecided claimed obligations is a broken tree, not a loaded machine: no retry then)
+		if len(retry) > 0 && len(retry) <= 12 {
+			rs := solveAll(retry, timeout*2, 8)
 			for k, r := range rs {
 				r.Time += vs[idx[k]].Time
 				vs[idx[k]] = r
